@@ -11,7 +11,7 @@ import (
 )
 
 const probeSDL = `type Query { me: User node: Node search: [U!]! echo(i: Int, c: Color, f: In): String }
-input In { a: Int }
+input In { a: Int l: [Int!] }
 interface Node { id: ID! }
 type User implements Node { id: ID! name: String color(first: Int = 3): Color friend(id: ID): User }
 type Product implements Node { id: ID! price: Int }
@@ -93,6 +93,7 @@ func probes() pbt.Probes {
 		"C04-duplicate-directive":                          {Input: "{ me { id @include(if: true) @include(if: true) } }", Fn: disagree("{ me { id @include(if: true) @include(if: true) } }")},
 		"C04-directive-missing-required-argument":          {Input: "{ me { id @include } }", Fn: disagree("{ me { id @include } }")},
 		"C04-variable-position-unchecked-in-input-objects": {Input: "query($v: String) { echo(f: {a: $v}) }", Fn: disagree("query($v: String) { echo(f: {a: $v}) }")},
+		"C04-null-item-in-nested-list-literal":             {Input: "{ echo(f: {l: [1, null]}) }", Fn: disagree("{ echo(f: {l: [1, null]}) }")},
 		"C04-int-min-literal-rejected":                     {Input: "{ echo(i: -2147483648) }", Fn: disagree("{ echo(i: -2147483648) }")},
 	}
 }
